@@ -37,7 +37,8 @@ def run(tier):
     try:
         for si in range(n_specs):
             vrl = R.choice([20, 24, 32, 48, 64])
-            spec = filegen.gen_spec(R, n_lf=1, small=True, vrl=vrl, rows=R.choice([3, 5, 8]))
+            spec = filegen.gen_spec(R, n_lf=1, small=True, vrl=vrl, rows=R.choice([3, 5, 8]),
+                                    with_index=False if si % 5 in (1, 3, 4) else None)
             spec['write'].update({'input_chunk_size': None, 'output_chunk_size': 2**20})
             # every kind of data source in turn; the structured array with its columns in another order than the frame's
             # and with columns no frame uses, once without and once with a row window
@@ -49,6 +50,11 @@ def run(tier):
                     spec['write']['source_opts'] = {'perm_seed': R.randrange(1000), 'extra': 2, 'exact': False}
                     if si % 5 == 0:
                         spec['write'].update({'from_idx': 0, 'to_idx': None})
+            # a row window strictly inside the data (frames without index type only: index attributes are C13's), so that
+            # the number of rows written and the number of rows in the source differ while the chunk size sweeps past both
+            indexed_ = any('index_type' in o['attrs'] for lf in spec['lfs'] for o in lf['objects'] if o['kind'] == 'frame')
+            if si % 5 in (1, 3, 4) and not indexed_ and len(rows_) == 1 and min(rows_) >= 3:
+                spec['write'].update({'from_idx': 1, 'to_idx': min(rows_) - 1})
             ref = filegen.write(spec, tmp)
             if ref['status'] != 'ok':
                 chk.count('reference-write-failed')
